@@ -164,7 +164,8 @@ def brentsroot(f, bounds, tol=None, verbose=False, return_interval=False):
             a, b = b, a
             fa, fb = fb, fa
         conv = (fb == 0 or fs == 0 or D.ar_numpy.abs(b - a) <= tol * D.ar_numpy.maximum(1.0, D.ar_numpy.abs(b)))
-        if numiter >= 64:
+        # Extended precision needs more than 64 halvings to collapse a bracket to the tolerance
+        if numiter >= 128:
             break
     if verbose:
         with numpy.printoptions(precision=17, linewidth=200):
@@ -310,7 +311,7 @@ def brentsrootvec(f, bounds, tol=None, verbose=False, return_interval=False, acc
         fa[mask], fb[mask] = fb[mask], fa[mask]
 
         conv = D.ar_numpy.logical_not(D.ar_numpy.logical_or(D.ar_numpy.logical_or(fb == 0, fs == 0), D.ar_numpy.abs(b - a) <= tol * D.ar_numpy.maximum(1.0, D.ar_numpy.abs(b))))
-        conv = conv & (numiter <= 64)
+        conv = conv & (numiter <= 128)
         not_conv = D.ar_numpy.logical_not(conv)
         # A root is certified either by a vanishing residual or by a sign change across a bracket that has
         # collapsed to the requested tolerance, the residual alone depends on the scale of the function
